@@ -55,9 +55,10 @@ Qed.
 Theorem callok_create ct st c auto name k extra children d :
   Inv ct st -> Fresh st c name k extra ->
   (forall x, In x children -> is_live (heap st) x = true) ->
+  ObjOK (mkObj c name k (k :: extra) true children d) ->
   CallOK ct (create ct st c auto name k extra children d).
 Proof.
-  intros I F Hch. unfold create.
+  intros I F Hch HO. unfold create.
   destruct (nth_error ct c) as [ci|] eqn:Ec; [|apply callok_err; exact I].
   assert (Hc : c < length ct) by (apply nth_error_Some; congruence).
   set (st1 := if auto then bump_id ct st c else st).
@@ -69,7 +70,7 @@ Proof.
   destruct (c_fail ci) eqn:Ef.
   - (* FNone *)
     unfold alloc. cbn [fst snd].
-    pose proof (inv_alloc_register ct st1 c name k extra children d I1 Hc F1 Hch1) as I2.
+    pose proof (inv_alloc_register ct st1 c name k extra children d I1 Hc F1 Hch1 HO) as I2.
     unfold alloc in I2. cbn [fst] in I2. split; [exact I2|].
     intros id b E. cbn [snd] in E. injection E as <- _. cbn [fst].
     unfold register, cput. cbn [heap]. unfold is_live. rewrite hget_new. reflexivity.
@@ -98,16 +99,17 @@ Lemma callok_lookup_create ct st c nm k auto extra children d :
   Inv ct st -> c < length ct ->
   (forall k', In k' extra -> klookup k' (cs_canon (cget st c)) = None) ->
   (forall x, In x children -> is_live (heap st) x = true) ->
+  ObjOK (mkObj c nm k (k :: extra) true children d) ->
   CallOK ct (match sing_lookup (cget st c) nm (Some k) with
              | LFound o => (st, CRet o false)
              | LRaise e => (st, CErr eSingleton e)
              | LFresh => create ct st c auto nm k extra children d
              end).
 Proof.
-  intros I Hc Fx Hch. destruct (sing_lookup (cget st c) nm (Some k)) eqn:E.
+  intros I Hc Fx Hch HO. destruct (sing_lookup (cget st c) nm (Some k)) eqn:E.
   - split; [exact I|]. intros id b E'. cbn in E'. injection E' as <- _. cbn.
     eapply sing_found_live; [apply (ok_cls _ _ (proj1 I) c Hc) | exact E].
-  - apply sing_fresh in E. destruct E as [E1 E2]. apply callok_create; [exact I | | exact Hch].
+  - apply sing_fresh in E. destruct E as [E1 E2]. apply callok_create; [exact I | | exact Hch | exact HO].
     split; [exact E1 | split; [exact E2 | exact Fx]].
   - apply callok_err; exact I.
 Qed.
@@ -150,7 +152,7 @@ Lemma callok_dom_finish ct c st auto nm len2 :
   Inv ct st -> c < length ct -> CallOK ct (dom_finish ct c st auto nm len2).
 Proof.
   intros I Hc. unfold dom_finish. destruct len2 as [l|]; cbn [option_map].
-  - apply callok_lookup_create; auto; intros ? [].
+  - apply callok_lookup_create; auto; try (intros ? []). unfold ObjOK. cbn. auto.
   - pose proof (callok_lookup_only ct st c nm None I Hc) as H.
     destruct (sing_lookup (cget st c) nm None); exact H.
 Qed.
@@ -229,6 +231,7 @@ Proof.
     + intros k' Hk. apply in_map_iff in Hk. destruct Hk as [[kk vv] [<- Hin]]. apply F1.
       apply in_map_iff. exists (kk, vv). split; [reflexivity | exact Hin].
     + intros x Hx. eapply Hch; eauto.
+    + exact Logic.I.
   - destruct name as [nm|]; [|apply callok_err; exact I].
     pose proof (callok_lookup_only ct st c nm None I Hc) as H.
     destruct (sing_lookup (cget st c) nm None); exact H.
@@ -246,7 +249,7 @@ Proof.
   destruct seq as [es|].
   - destruct (existsb is_plus es); [apply callok_err; exact I|].
     destruct (resolve_name ct st c ci name prefix) as [nm|k]; [|apply callok_err; exact I].
-    apply callok_lookup_create; auto; [intros ? [] | intros x Hx; eapply Hch; eauto].
+    apply callok_lookup_create; auto; [intros ? [] | intros x Hx; eapply Hch; eauto | exact Logic.I].
   - destruct name as [nm|]; [|apply callok_err; exact I].
     pose proof (callok_lookup_only ct st c nm None I Hc) as H.
     destruct (sing_lookup (cget st c) nm None); exact H.
@@ -265,7 +268,7 @@ Proof.
       [|apply callok_err; exact I].
     match goal with |- CallOK _ (match sing_lookup ?cs ?n (Some ?k) with _ => _ end) =>
       destruct (find (fun i => str_eqb (obj_name (heap st) i) nm) ms) as [rep|] eqn:EF end.
-    + apply callok_lookup_create; auto; [intros ? [] | intros x Hx; eapply Hch; eauto].
+    + apply callok_lookup_create; auto; [intros ? [] | intros x Hx; eapply Hch; eauto | exact Logic.I].
     + pose proof (callok_lookup_only ct st c nm (Some (KMac (map snd (sort_by snd ckey_cmp mks)))) I Hc) as H.
       destruct (sing_lookup (cget st c) nm _); exact H.
   - destruct name as [nm|]; [|apply callok_err; exact I].
@@ -284,7 +287,7 @@ Proof.
   - destruct (omap' _ rs) as [fr|]; [|apply callok_err; exact I].
     destruct (omap' _ ps) as [fp|]; [|apply callok_err; exact I].
     match goal with |- CallOK _ (if ?b then _ else _) => destruct b end; [apply callok_err; exact I|].
-    apply callok_lookup_create; auto; [intros ? [] | intros x Hx; eapply Hch; eauto].
+    apply callok_lookup_create; auto; [intros ? [] | intros x Hx; eapply Hch; eauto | exact Logic.I].
   - destruct name as [nm|]; [|apply callok_err; exact I].
     destruct rtype; [apply callok_err; exact I|].
     pose proof (callok_lookup_only ct st c nm None I Hc) as H.
@@ -296,10 +299,11 @@ Theorem inv_set_turns ct st i v : Inv ct st -> Inv ct (fst (set_turns st i v)).
 Proof.
   intros I. unfold set_turns.
   destruct (hget (heap st) i) as [o|] eqn:E; [|exact I].
-  destruct (o_data o); try exact I.
+  destruct (o_data o) eqn:ED; try exact I.
   - match goal with |- context [if ?b then _ else _] => destruct b end; [exact I|].
     destruct (rot_n _ seq sst) as [[es' ss']|k]; [|exact I].
-    cbn [fst]. apply inv_hset_data; assumption.
+    cbn [fst]. apply inv_hset_data; [assumption | assumption |].
+    match goal with H : o_data o = _ |- _ => rewrite H end. exact Logic.I.
   - match goal with |- context [if ?b then _ else _] => destruct b end; exact I.
 Qed.
 
